@@ -1170,6 +1170,60 @@ Section Ideal.
   Qed.
 End Ideal.
 
+(* ---- the timestamps that enter a measurement are those of the authenticated header ---- *)
+Lemma nth_firstn_lt : forall (l : list Z) n i d, (i < n)%nat -> nth i (firstn n l) d = nth i l d.
+Proof.
+  induction l as [|x l IH]; intros n i d H.
+  - rewrite firstn_nil. reflexivity.
+  - destruct n as [|n]; [inversion H|]. destruct i as [|i]; simpl; [reflexivity|]. apply IH. apply Nat.succ_lt_mono. exact H.
+Qed.
+
+Lemma be32_firstn : forall b n pos, (pos + 4 <= n)%nat -> be32 (firstn n b) pos = be32 b pos.
+Proof.
+  intros b n pos H. unfold be32, nthz.
+  rewrite !nth_firstn_lt by lia. reflexivity.
+Qed.
+
+Section Authenticated.
+  Variable open : bytes -> bytes -> bytes -> bytes -> option bytes.
+
+  (* An accepted exchange: the reported server transmit time (and, unless the response is an
+     interleaved one, the receive time; always the receive timestamp kept for interleaved mode) are
+     the fields of the NTP header at the start of the payload as parsed (g_payload: over SCION
+     udpLayer.Payload), and with NTS that header is part of the associated data that opened under the
+     server-to-client key: the same bytes, read from the authenticated prefix, give the same times *)
+  Theorem accept_timestamps_authenticated : forall q evs i r,
+    recv_loop open q 0 0 evs = LAccept i r ->
+    exists g h, nth_error evs i = Some (EvDgram g) /\ ntp_decode (g_payload g) = Some h /\
+      r_t2 r = time_of_time64 (h_tx h) (q_ref q) /\
+      (is_interleaved q h = false -> r_t1 r = time_of_time64 (h_rx h) (q_ref q)) /\
+      r_srx r = h_rx h /\
+      (q_nts q = true ->
+         exists p pt, decode_packet (g_payload g) = Ok p /\ (48 <= p_pos p <= length (g_payload g))%nat /\
+           open (q_s2c q) (p_nonce p) (firstn (p_pos p) (g_payload g)) (p_ct p) = Some pt /\
+           let ad := firstn (p_pos p) (g_payload g) in
+           h_org h = {| t64_sec := be32 ad 24; t64_frac := be32 ad 28 |} /\
+           h_rx h = {| t64_sec := be32 ad 32; t64_frac := be32 ad 36 |} /\
+           h_tx h = {| t64_sec := be32 ad 40; t64_frac := be32 ad 44 |}).
+  Proof.
+    intros q evs i r H. pose proof H as H0. apply recv_loop_accept in H.
+    destruct H as (_ & g & h & H1 & HG & _ & HR & _). exists g, h.
+    pose proof HG as (_ & _ & _ & G4 & _).
+    split; [exact H1|]. split; [exact G4|].
+    assert (HS : r_t2 r = time_of_time64 (h_tx h) (q_ref q) /\
+                 (is_interleaved q h = false -> r_t1 r = time_of_time64 (h_rx h) (q_ref q)) /\ r_srx r = h_rx h).
+    { subst r. unfold result_of, stamps. destruct (is_interleaved q h); cbn; repeat split; auto; intro Hc; discriminate. }
+    destruct HS as (S1 & S2 & S3). split; [exact S1|]. split; [exact S2|]. split; [exact S3|].
+    intro HN.
+    destruct (nts_accept_authentic open (fun k n ad pt ct => open k n ad ct = Some pt) (fun k n ad ct pt E => E) q evs i r HN H0)
+      as (g' & p & pt & A1 & A2 & _ & A4 & A5).
+    rewrite H1 in A1. inversion A1; subst g'. exists p, pt. split; [exact A2|]. split; [exact A4|]. split; [exact A5|].
+    cbv zeta. unfold ntp_decode in G4. destruct (length (g_payload g) <? 48)%nat; [discriminate|].
+    inversion G4; subst h. cbn [h_org h_rx h_tx]. destruct A4 as [A4 _].
+    rewrite !be32_firstn by lia. auto.
+  Qed.
+End Authenticated.
+
 (* ---- auth_modes -> client flags (Model/AuthModes.v) ---- *)
 From ST Require Import Model.AuthModes.
 From Coq Require Import Permutation.
